@@ -7,6 +7,7 @@ import PhyloModel.Dist.Fold
 import PhyloModel.Matrix.Upgma
 import PhyloModel.Misc.Generators
 import PhyloModel.Misc.Layout
+import PhyloModel.Arena.Cli
 /-! Line-protocol driver: runs the executable definitions of the model, one request per line
     (tab-separated fields), one answer line per request.  See /verif/PROTOCOL.md.
     Unknown or ill-formed requests answer `bad-op`; nothing is ever defaulted. -/
@@ -320,6 +321,18 @@ def dispatch (st : DState) (fs : List String) : DState × String :=
   | ["ar.swap"] => ({ st with ar := st.ar2, ar2 := st.ar }, "ok")
   | "sp" :: q => match spQuery st.ar st.ar2 q with | some r => (st, r) | none => bad
   | ["nop"] => (st, "ok")
+  | ["cli.collapse", thr, ex] => match thr.toInt? with
+    | some thr => match AR.cliCollapse st.ar thr (ex == "1") with
+      | .ok a => ({ st with ar := a }, "ok")
+      | .err k => (st, "err " ++ k)
+      | .panic => (st, "panic")
+    | none => bad
+  | ["cli.remove", names] => match decTaxa names with
+    | some ns => match AR.cliRemove st.ar ns with
+      | .ok a => ({ st with ar := a }, "ok")
+      | .err k => (st, "err " ++ k)
+      | .panic => (st, "panic")
+    | none => bad
   | ["lay"] =>
     (st, encQR (fun (segs : List LAY.Seg) => " ".intercalate (segs.map (fun s =>
         s!"{s.parent},{s.id},{encRat s.angle},{encRat s.start},{encRat s.width},{encOptInt s.len},{encOptStr s.name}")))
